@@ -382,13 +382,55 @@ def jumps_twin(chk, prog):
     nb = [tuple(norm_names(x) for x in t) for t in ib["neg"]]
     site = a.ref + " ~ " + b.ref
     if not va or not vb or not na or not nb:
-        chk.error("TWIN.jumps: the loop that negates the slices between jump pairs was not found in %s (cannot compare the two copies)" % (a.ref if (not va or not na) else b.ref))
+        chk.record("TWIN.jumps", site, "no slice-negating loop over jump pairs in %s; decided by TWIN.jumps.sample" % (a.ref if (not va or not na) else b.ref))
     elif va == vb and na == nb:
-        chk.record("TWIN.jumps", site, "same jump pairs and the same slices are negated")
+        chk.record("TWIN.jumps", site, "same jump pairs and the same slices are negated (identical value numbers)")
     else:
-        chk.record("TWIN.jumps", site, "same jump pairs and the same slices are negated", verdict="VIOLATION", detail="%s vs %s; %s vs %s" % (va[:120], vb[:120], na, nb))
-        chk.finding("TWIN.jumps", ORI, "q_correct", "q_correct differs from QuaternionArray.remove_jumps",
-                    "the two copies of the sign-jump removal no longer compute the same jump pairs / negate the same slices", line=b.node.lineno)
+        # different spellings: not a verdict by itself - the sampled interpretation below decides
+        chk.record("TWIN.jumps", site, "value numbers of the two copies differ in spelling; decided by TWIN.jumps.sample")
+    jumps_sampled(chk, prog, a, b)
+
+
+JUMP_PATTERNS = [(1, 1, 1, 1, 1, 1), (1, -1, -1, 1, 1, 1), (1, 1, -1, -1, -1, -1), (1, -1, 1, -1, 1, -1), (-1, -1, 1, 1, -1, 1), (1, 1, 1, 1, 1, -1), (-1, 1, 1, 1, 1, 1)]
+
+
+def jumps_sampled(chk, prog, a, b):
+    """TWIN.jumps.sample: both copies of the sign-jump removal are interpreted on a symbolic 6-row array; every data-dependent test (is the step between two rows
+    longer than 1?) is decided as it comes out for a slowly turning sequence multiplied by a given sign pattern.  Along that path the results are exact: they must
+    be equal row by row, and equal to the input rows times the running product of the flips (no jump left, same rotations)."""
+    import math
+    from sa.lib import sample_oracle, quat_obj
+    n = 6
+    Q = np.empty((n, 4), dtype=object)
+    for i in range(n):
+        for j, c_ in enumerate("wxyz"):
+            Q[i, j] = P.sym("jq%d%s" % (i, c_))
+    for pat, step in [(p_, 0.05) for p_ in JUMP_PATTERNS] + [(p_, 0.9) for p_ in JUMP_PATTERNS[:4]]:
+        # step 0.9 rad per row: a sequence that turns by more than half a turn in total (the last rows are in the opposite hemisphere of the first one
+        # although no two consecutive rows are far apart)
+        vals = {}
+        for i in range(n):
+            t = 0.3 + step * i
+            base = (math.cos(t / 2), math.sin(t / 2) * 0.36, math.sin(t / 2) * 0.48, math.sin(t / 2) * 0.8)
+            for j, c_ in enumerate("wxyz"):
+                vals["jq%d%s" % (i, c_)] = pat[i] * base[j]
+
+        want = np.array([[Q[i, j] * (pat[i] * pat[0]) for j in range(4)] for i in range(n)], dtype=object)
+        tag = "%s step %.2f" % ("".join("+" if s_ > 0 else "-" for s_ in pat), step)
+
+        def law_a(pat=pat, vals=vals, want=want):
+            it = Interp(prog, oracle=sample_oracle(vals))
+            obj = quat_obj(it, Q.copy(), cls="QuaternionArray")
+            it.run(a, [], self_obj=obj)
+            return eq(to_obj(obj.attrs["array"]), want, "remove_jumps: rows times the running sign, pattern %s" % (pat,))
+
+        def law_b(pat=pat, vals=vals, want=want):
+            it2 = Interp(prog, oracle=sample_oracle(vals))
+            return eq(to_obj(it2.run(b, [Q.copy()])), want, "q_correct: rows times the running sign, pattern %s" % (pat,))
+        chk.ob("TWIN.jumps.sample", "%s::pattern %s" % (a.ref, tag), "remove_jumps returns the rows with the sign flips undone (first row kept), sign pattern %s" % (pat,), law_a,
+               module=QUAT, function="QuaternionArray.remove_jumps", construct="sign-jump removal on a sample pattern", line=a.node.lineno)
+        chk.ob("TWIN.jumps.sample", "%s::pattern %s" % (b.ref, tag), "q_correct returns the rows with the sign flips undone (first row kept), sign pattern %s" % (pat,), law_b,
+               module=ORI, function="q_correct", construct="sign-jump removal on a sample pattern", line=b.node.lineno)
 
 
 def canaries(chk, prog):
